@@ -379,6 +379,9 @@ def gen_config(pa, rng, quick, identical=False, force=None):
     if len(c.annotators) >= 4 and c.num_units > 40 and precision not in (None, 0.5, 0.3):
         precision = 0.3
     n_samples = rng.choice([1, 2, 3, 5, 8])
+    if force.get("second_batch"):
+        # a precision level that the first batch of 3 samples practically never satisfies: a second batch is drawn
+        precision, n_samples = 0.08, 3
     if force.get("crowded"):
         gt, n_samples = None, max(n_samples, 5)       # every annotator gets a pivot (4 pivots on a short line), several samples
     cfg = {"mode": mode, "sampler": sampler, "precision": precision, "n": n_samples, "gt": gt,
@@ -528,8 +531,9 @@ def run_c06(tier, rep, pa):
     probe.install()
     configs = []
     forced = [{"sampler": "int_pivot", "crowded": True}, {"mode": "fast", "big": True, "sampler": "stat"}, {"mode": "fast", "big": True, "sampler": "int_pivot"},
-              {"sampler": "int_pivot", "gt": True}, {"sampler": "float_pivot", "gt": True}, {"mode": "soft"}, {"mode": "exact", "sampler": "stat", "gt": True}]
-    for k in range(9 if quick else 40):
+              {"sampler": "int_pivot", "gt": True}, {"sampler": "float_pivot", "gt": True}, {"mode": "soft"}, {"mode": "exact", "sampler": "stat", "gt": True},
+              {"mode": "exact", "sampler": "stat", "second_batch": True}, {"mode": "exact", "sampler": "float_pivot", "second_batch": True}]
+    for k in range(10 if quick else 40):
         c, d, cfg = gen_config(pa, rng, True, force=forced[k] if k < len(forced) else None)
         cfg.update(alpha=getattr(d, "alpha", 1), beta=getattr(d, "beta", 1), de=float(d.delta_empty))
         if cfg["precision"] in ("medium", 0.05):
@@ -624,6 +628,7 @@ def run_c06(tier, rep, pa):
                                                               "other_vector": [float.fromhex(x) for x in g["results"][g["_labels"].index(diff[0])]][:8]})
         if bad:
             rep.violation("schedule." + "+".join(bad), {"clauses": bad, "config": metas[k]})
+    rep.extra["configurations_with_a_second_batch"] = sum(1 for g in groups if g["results"] and len(g["results"][0]) > g["_cfg"]["n"] + 2 + (4 if g["_cfg"]["combined"] else 0))
     rep.extra["result_vectors_compared"] = sum(len(g["results"]) for g in groups)
     rep.extra["tlc_job_orders_available"] = len(orders)
     rep.sample({"config": configs[0], "environments": groups[0]["_labels"][:12], "vector_head": groups[0]["results"][0][:5]})
